@@ -23,7 +23,7 @@ ENCODED = ["twisted.application._client_service:makeMachine", "twisted.applicati
            "twisted.application._client_service:_DisconnectFactory",
            "twisted.application._client_service:_ReconnectingProtocolProxy",
            "twisted.internet.task:Clock.advance", "twisted.internet.task:Clock.callLater"]
-BOUNDS = {"quick": {"plain": 5, "prep": 5}, "thorough": {"plain": 7, "prep": 7}}
+BOUNDS = {"quick": {"plain": 5, "prep": 5}, "thorough": {"plain": 7, "prep": 6}}
 B = {}
 BOUNDS_TEXT = ("every history of <= plain events (no prepareConnection hook) and of <= prep events (hook returning a "
                "Deferred the harness fires or fails later; with a hook returning at once: one event less) over "
